@@ -295,21 +295,21 @@ func shapeRef(name string, in int64) (int64, int64) {
 	switch name {
 	case "ShapeJE":
 		if in == 7 {
-			return 100, 0
+			return -100, 0
 		}
 		return in + 1, 0
 	case "ShapeJBE":
 		if uint64(in) <= 7 {
-			return 200 + in, 0
+			return -200 + in, 0
 		}
 		return in + 2, 0
 	case "ShapeJG":
 		if in > 7 {
-			return 300 + in, 0
+			return -300 + in, 0
 		}
 		return in + 3, 0
 	case "ShapeJMP":
-		return (in + 3) * 2, 0
+		return (in + 3 - 1000) * 2, 0
 	case "ShapeJNE":
 		if in != 7 {
 			return 400 + in, 0
@@ -332,7 +332,7 @@ func shapeRef(name string, in int64) (int64, int64) {
 		return in + 5, 0
 	case "ShapeCMPM":
 		if in == 7 {
-			return 2, 0
+			return -2, 0
 		}
 		return 1, 0
 	case "ShapeMOVI":
